@@ -112,6 +112,13 @@ def literal_values(tier):
         st.builds(lambda n, f: f * n, edge_lens, fill),
         st.sampled_from([b"\x00", b"\x7f", b"\x80", b"\x01"]),
         st.builds(lambda n, f: f * n, rlp_lens, fill),
+        # values that look like node references or node encodings
+        st.sampled_from([
+            b"\xc0", b"\xc1\x80", b"\xc2\x20\x01", b"\xc4\x82\x20\x01\x01",
+            bytes.fromhex("56e81f171bcc55a6ff8345e692c0f86e5b48e01b996cadc001622fb5e363b421"),
+            bytes.fromhex("c5d2460186f7233c927e7db2dcc703c0e500b653ca82273b7bfad8045d85a470"),
+            b"\x01" * 32,
+        ]),
     )
 
 
